@@ -193,7 +193,7 @@ def client_steps(max_steps: int = 40, drains: bool = False, closers: bool = True
     unbind = st.just({"op": "call", "what": "unbind", "v": 0})
     keep = [(8, call), (9, recv_good)]
     if drains:
-        keep.append((8, drain_step()))
+        keep.append((7, drain_step()))
     close = [(1, unbind), (1, garbage), (2, recv_bad)]
     body = _sized_list(_weighted(keep + ([(1, st.one_of(unbind, garbage, recv_bad, recv_bad))] if closers else [])), max_steps)
     if not closers:
@@ -237,10 +237,15 @@ def server_steps(max_steps: int = 40, drains: bool = False, closers: bool = True
 
 
 def drain_step() -> t.Any:
-    return st.fixed_dictionaries(
-        {"op": st.just("drain"), "amount": st.one_of(st.none(), st.sampled_from([0, 1, 2, 7, 10**9]), st.integers(0, 300),
-                                                      st.tuples(st.just("pending"), st.integers(-3, 3)))}
-    )
+    amounts = _weighted([
+        (1, st.none()),
+        (1, st.just(0)),
+        (7, st.integers(1, 14)),
+        (2, st.integers(15, 300)),
+        (3, st.tuples(st.just("pending"), st.integers(-3, 3))),
+        (1, st.just(10**9)),
+    ])
+    return st.fixed_dictionaries({"op": st.just("drain"), "amount": amounts})
 
 
 # ---------------------------------------------------------------------------------------- executor
@@ -549,3 +554,65 @@ def _check_emitted(tr: Trace, side: str, emitted: bytes, out: Outcome, where: st
     if exp is not None and m != exp:
         d = msgcheck.first_diff(exp, m)
         tr.add("emitted", f"{side}:emitted-message-differs:{msgcheck.diff_field(d)}", f"{where}: asked for {exp!r}, bytes say {m!r}")
+
+
+# ---------------------------------------------------------------------------------------- plain runner (transcripts)
+
+
+class Entry(t.NamedTuple):
+    kind: str
+    ok: bool
+    exc: t.Optional[str]
+    value: t.Any
+    state: str
+    emitted: bytes  # bytes drained right after the step (full-drain mode) or returned by the drain step
+
+
+def run_plain(
+    side: str,
+    steps: t.Sequence[t.Dict[str, t.Any]],
+    full_drain: bool = True,
+    pending_oracle: t.Optional[t.Callable[[int], int]] = None,
+    session: t.Any = None,
+    mdl: t.Optional[model.Model] = None,
+) -> t.List[Entry]:
+    """Run the steps on a real session and record what is observable. The model is only bookkeeping for
+    resolving symbolic ids; it is driven by the implementation's own outcomes (no verdicts)."""
+    s = session if session is not None else sess.new(side)
+    mdl = mdl if mdl is not None else model.Model(side)
+    out: t.List[Entry] = []
+    for i, step in enumerate(steps):
+        if step["op"] == "drain":
+            amount = step["amount"]
+            if isinstance(amount, tuple):
+                pend = pending_oracle(i) if pending_oracle is not None else 0
+                amount = max(0, pend + amount[1])
+            if full_drain:
+                out.append(Entry("drain", True, None, None, sess.state(s), b""))
+                continue
+            try:
+                d = s.data_to_send(amount)
+                out.append(Entry("drain", True, None, amount, sess.state(s), d))
+            except BaseException as e:
+                out.append(Entry("drain", False, type(e).__name__, amount, sess.state(s), b""))
+            continue
+        o = exec_step(s, side, step, mdl)
+        if o.kind == "call" and o.ok:
+            what = o.info["what"]
+            if side == "client" or what == "unbind":
+                if side == "client":
+                    mdl.client_called(what, o.value if what != "unbind" else None)
+                else:
+                    mdl.server_called("unbind", 0)
+            else:
+                mdl.server_called(what if what != "notice" else "extended", o.info["id"], step.get("code", 0), o.info["name"])
+        elif o.kind == "recv":
+            for m in o.info["msgs"]:
+                v = mdl.incoming(m["kind"], m["id"], (m.get("result") or {}).get("code", 0), m.get("name") if m["kind"] == "extendedResp" else None)
+                if not v.accepted:
+                    break
+        elif o.kind == "garbage" and not o.ok:
+            mdl._close()
+        emitted = sess.drain(s) if full_drain else b""
+        out.append(Entry(o.kind, o.ok, type(o.exc).__name__ if o.exc is not None else None, o.value, sess.state(s), emitted))
+    return out
